@@ -2,7 +2,7 @@
    existing name once with exactly the de-duplicated RRsets of the accepted records. *)
 From QV Require Import Base.Res Base.Octets Base.ListX Gen.ZoneConsts Model.ZoneTree Spec.ZoneLookupS
   Proofs.ZoneBaseP Proofs.ZoneRrsetP Proofs.ZoneViewP Proofs.ZoneInvP Proofs.ZoneLookupP Proofs.ZoneTopP
-  Proofs.ZoneIterP.
+  Proofs.ZoneIterP Proofs.ZoneSpellP.
 
 Lemma NoDup_flat_map_keyed {A B K} (g : A -> list B) (kA : A -> K) (kB : B -> K) l :
   NoDup (map kA l) -> (forall x, In x l -> NoDup (g x)) ->
@@ -72,7 +72,7 @@ Lemma add_result wide recs z r : zone_build req (zone_new apex cls wide) recs = 
              zone_build req (zone_new apex cls wide) (recs ++ [r]) = Some z'.
 Proof.
   intros H. pose proof (build_inv req req_trans apex cls wide recs z H) as HI.
-  destruct (zone_add_step req req_trans apex cls z _ r HI) as (z' & A & _ & Hsame).
+  destruct (zone_add_step req req_trans apex cls z _ r HI) as (z' & A & _ & Hsame & _).
   exists z'. split; auto. split; auto. eapply zone_build_snoc; eauto.
 Qed.
 
@@ -256,3 +256,30 @@ Proof.
 Qed.
 
 End Final.
+
+(* ---- exact spelling of the iterated names *)
+Lemma iter_names_spelled req apex cls z R : Inv req apex cls z R -> Inv_sp apex z R -> wf (z_apex z) ->
+  forall n d, In (n, d) (zone_iter_by_node z) -> spelled apex R (lc n) = n.
+Proof.
+  intros HI HS HW n d Hin. unfold zone_iter_by_node in Hin. rewrite <- all_paths_iter in Hin.
+  apply in_map_iff in Hin. destruct Hin as ([p [n' d']] & E & Hin). simpl in E. inversion E; subst.
+  apply (node_spelled req apex cls z R HI HS). exists p, d. apply paths_sound; auto.
+Qed.
+
+Lemma build_iter_names_spelled req
+  (req_trans : forall cls ty a b c, req cls ty a b = true -> req cls ty b c = true -> req cls ty a c = true)
+  apex cls wide recs z :
+  zone_build req (zone_new apex cls wide) recs = Some z ->
+  (forall n d, In (n, d) (zone_iter_by_node z) -> spelled apex (accepted apex cls recs) (lc n) = n) /\
+  (forall n rs, In (n, rs) (zone_iter_by_rrset z) -> spelled apex (accepted apex cls recs) (lc n) = n).
+Proof.
+  intros H.
+  assert (G : forall n d, In (n, d) (zone_iter_by_node z) -> spelled apex (accepted apex cls recs) (lc n) = n).
+  { apply (iter_names_spelled req apex cls z).
+    - eapply build_inv; eauto.
+    - eapply zone_build_new_sp; eauto.
+    - eapply build_wf; eauto. }
+  split; auto. intros n rs Hin. unfold zone_iter_by_rrset in Hin. apply in_flat_map in Hin.
+  destruct Hin as ([n' d] & Hnd & Hrs). apply in_map_iff in Hrs. destruct Hrs as (rs' & E & _).
+  simpl in E. inversion E; subst. eapply G; eauto.
+Qed.
